@@ -234,6 +234,13 @@ var universe = []objDef{
   subsets:
   - {name: v1, labels: {version: v1}}
 `,
+		// the same subset names selecting other endpoints: only EDS changes
+		meta("DestinationRule", netAPI, "dr-a", "ns1") + `spec:
+  host: a.example.com
+  subsets:
+  - {name: v1, labels: {version: v2}}
+  - {name: v2, labels: {version: v1}}
+`,
 	}},
 	{ID: "dr-b", Variants: []string{
 		meta("DestinationRule", netAPI, "dr-b", "ns2") + `spec:
